@@ -39,6 +39,16 @@ theorem C10_uint_leaf (c : Cfg) (n : Nat) (h : n ≤ Scalar.U64_MAX) :
 
 example : (18446744073709551615 : Nat) ≤ Scalar.U64_MAX := by decide
 
+/-- signed integer leaves: the I64 (or I32) token and its decimal text are the same value for an
+`i64` request: `to_i64 (fmtInt n) = n`.  Stated for |n| ≤ 2^63-1: the present scalar model refuses
+the magnitude 2^63 (i64::MIN) before applying the sign; once the repaired `to_i64` (repo 8327848)
+is in Model/Scalar.lean the range becomes -2^63..2^63-1. -/
+theorem C10_int_leaf (c : Cfg) (n : Int) (h : n.natAbs ≤ Scalar.I64_MAX) :
+    textLeaf c .i64 (.i64 n) = valLeaf c .i64 (.i64 n) ∧ textLeaf c .i64 (.i32 n) = valLeaf c .i64 (.i32 n) := by
+  simp [textLeaf, leafText, textScalarVal, valLeaf, leafPrim, toI64_fmtInt n h, visitPrim, Prim.asInt]
+
+example : (-9223372036854775807 : Int).natAbs ≤ Scalar.I64_MAX := by decide
+
 /-- a string leaf means the same in both formats (the same Windows-1252 decoding of the same bytes),
 quoted or not. -/
 theorem C10_string_leaf (c : Cfg) (b : Bytes) :
@@ -64,8 +74,6 @@ theorem C10_rgb_head (col : Rgb) (e : Ty) :
 NOT PROVED here (covered by the `pair` correspondence op — the text reference predicts both text
 deserializers and the binary models all three binary ones on every generated document, floats bit
 for bit — and by the implementation oracle):
-  * signed integers: `toI64 (fmtInt n) = n` for |n| ≤ 2^63-1 (same argument as `C10_uint_leaf`
-    with a sign; i64::MIN has no text form `to_i64` accepts, C11 leaves it open);
   * the components of a colour: `textInner col (.seq .u32) = outerElem2 col (.seq .u32)` needs
     `toU64 (fmtNat v) = v` per component (`toU64_fmtNat`) folded over `seqFrom`;
   * the fixed point leaf (text "1.500" through f64 vs. F32 token through f32): equal only up to
